@@ -54,6 +54,8 @@ func markerVals(suffix func(i int) string) (map[string]string, map[string]int) {
 			v = "http://e.example/" + v
 		case strings.HasSuffix(f.Key, ".email"):
 			v = v + "@example.com"
+		case f.Key == "basePath":
+			v = "/" + v
 		}
 		vals[f.Key] = v
 		idx[f.Key] = i
